@@ -380,6 +380,26 @@ class TrafficChecker:
                         return ("C20/send-not-reported-delivered", "send returned %s on a loss-free compatible link" % res)
             if name == "send":
                 self.call = (cur, op, res, snaps)
+            elif m["lossless"] and res[0] == 0 and not op[2]:
+                # list form: every element is acknowledged in turn and takes the oldest ACK payload loaded for the pipe
+                loaded, rp = self.acks[peer], m["rpipe"][peer]
+                vals, p = [], 2
+                for _ in range(res[1]):
+                    if res[p] == 0:
+                        vals.append(None)
+                        p += 2
+                    else:
+                        n = res[p + 2] if res[p + 1] == 1 else 0
+                        vals.append(bytes(res[p + 3:p + 3 + n]) if res[p + 1] == 1 else None)
+                        p += 3 + n if res[p + 1] == 1 else 2
+                for got in vals:
+                    match = next((i for i, (pp, _x) in enumerate(loaded) if pp == rp), None)
+                    exp = loaded.pop(match)[1] if match is not None else None
+                    if exp is not None:
+                        self.spent[peer].append(exp)
+                    if not op[4] and got != exp:
+                        return ("C20/ack-payload-not-returned", "send(list) returned %s, the peer had loaded %s for pipe %s" % (
+                            [None if v is None else v.hex() for v in vals], None if exp is None else exp.hex(), rp))
             return None
         if name == "resend":
             self.call = (cur, op, res, snaps)
@@ -465,7 +485,7 @@ def setup_pair(r, kinds, dyn, L, rpipe, aw, ackpl, arc):
                 ops += [("open_rx_pipe", rpipe[n], base)]
                 addr[n] = base
             else:
-                first = r.randrange(1, 255)
+                first = r.choice([x for x in range(1, 255) if x != base[0]])   # a pipe of its own, not a second name for pipe 1
                 ops += [("open_rx_pipe", 1, base), ("open_rx_pipe", rpipe[n], bytes([first]))]
                 addr[n] = bytes([first]) + base[1:]
     return ops, addr
@@ -496,6 +516,9 @@ def gen_traffic(r, kinds):
         if x < 0.15 and ackpl:
             n = r.choice([0, 1, 5, 31, 32, 33, r.randrange(0, 34)])
             ops += [("select", recv), ("load_ack", bytes(r.randrange(256) for _ in range(n)), r.choice([rpipe[recv], rpipe[recv], -1, 6, r.randrange(6)]))]
+            if r.random() < 0.35:      # back-to-back loads up to and beyond the 3 FIFO levels, nothing else on the bus in between
+                for _ in range(r.randrange(1, 5)):
+                    ops += [("load_ack", bytes(r.randrange(256) for _ in range(r.randrange(1, 33))), r.choice([rpipe[recv], r.randrange(6)]))]
         elif x < 0.55 and pending[recv] < 3:
             n = r.choice([0, 1, 2, L, 31, 32, 33, 40, r.randrange(1, 33), r.randrange(1, 33)])
             pl = bytes(r.randrange(256) for _ in range(n))
